@@ -227,7 +227,9 @@ def run(res):
         cases.append((w, gen_norm_prog(r, w) if r.random() < 0.3 else gen_prog(r, w), envs))
     lines = ["expr|%d|%s|%s" % (w, p, "/".join(",".join(str(x) for x in e) for e in envs)) for (w, p, envs) in cases]
     model = C.run_lines(driver, lines)
-    stats = {"programs": len(cases), "ops": 0, "structural_mismatch": 0, "value_violations": 0, "normalize_changed": 0, "sym_some": 0}
+    shape_bad = [l for l, m in zip(lines, model) if m.endswith("SHAPE-VIOLATED")]
+    model = [m[:-len(" ; SHAPE-VIOLATED")] if m.endswith(" ; SHAPE-VIOLATED") else m for m in model]
+    stats = {"programs": len(cases), "shape_hypothesis_violations": len(shape_bad), "ops": 0, "structural_mismatch": 0, "value_violations": 0, "normalize_changed": 0, "sym_some": 0}
     hist = {}
     rep = 0
     for profile in ("debug", "release"):
@@ -260,6 +262,9 @@ def run(res):
         "samples": lines[:: max(1, len(lines) // 5)][:5],
         "op_histogram": hist, "stats": stats,
     })
+    if shape_bad:
+        res.violation("an expression reachable through the public API violates the shape hypothesis (singles_unique/const_first) of the _partial decomposition theorems: " + shape_bad[0][:300],
+                      {"case": shape_bad[0], "theorems": ["C15_inc_of_partial", "C15_prod_inc_of_partial", "C15_constant_part_partial"]}, no_failing_input=True)
     res.assumptions += ["Expr.v is hand-written (hash maps as association lists + the same final sort); tied structurally"]
     if broken and not res.violations:
         res.violation("proof side of C15 no longer checks: " + "; ".join(broken)[:1500], {"broken": broken, "theorem_file": "coq/theories/Props/C15.v"}, no_failing_input=True)
